@@ -127,6 +127,9 @@ pub struct Env {
     pub restart_verifier_before: Vec<usize>,
     /// data absorbed into both sponges before the history starts
     pub sponge_preabsorb: u32,
+    /// index of the prover's RNG stream (C07 fork tests run the same session under another stream)
+    #[serde(default)]
+    pub prover_rng_stream: u64,
 }
 
 impl Default for Env {
@@ -143,6 +146,7 @@ impl Default for Env {
             restart_prover_before: vec![],
             restart_verifier_before: vec![],
             sponge_preabsorb: 0,
+            prover_rng_stream: 0,
         }
     }
 }
